@@ -26,9 +26,12 @@ CLAIMS = {
 PENDING = {'C04','C06','C07','C16','C17'}  # being updated to the repaired tree; re-enabled when green
 for k in PENDING:
     CLAIMS.pop(k, None)
+import sys, importlib
+sys.path.insert(0, '/verif/lib'); sys.path.insert(0, '/verif/lib/props')
 checks = []
 for pid in sorted(CLAIMS):
     cat, text, ref = CLAIMS[pid]
+    cat = importlib.import_module(pid.lower()).LEVEL      # the check module is the single source of the level
     checks.append({
         "property_id": pid,
         "quick_cmd": "bin/check %s --tier quick" % pid,
